@@ -118,7 +118,10 @@ CLAIMED = {
          "end to end on the models of writer and reader, through store / formatItalics / toCaps as well); with the START TIMES: the reader computes from the time "
          "code the writer prints for an instant exactly floor(instant in frames) + k frames for the k-th word of the line (written_stamp_instant), every re-read caption "
          "starts at the instant of its End-Of-Caption word (written_file_times), and that is between two and three frames before the caption's start whenever the "
-         "start leaves room for the transmission (shown_within_three_frames). Executable model of _text_to_code, the pre-roll pass and _format_timestamp compared byte-for-byte with the writer's output; the output is "
+         "start leaves room for the transmission (shown_within_three_frames); for caption sets whose cues are spaced far enough apart to be transmitted "
+         "(WellSpaced: words + 8 frames of room, each cue sent at least four frames after the previous one ends) the stored captions are exactly the input captions with "
+         "start = shownAt and end = the instant of the clearing line, less than a frame before the caption's end (written_file_start_end: the pre-roll pass keeps every "
+         "clearing line, nothing is joined, retimed or given the default four seconds). Executable model of _text_to_code, the pre-roll pass and _format_timestamp compared byte-for-byte with the writer's output; the output is "
          "checked structurally (header, hex words, parity, rows, 32 columns, breaks at spaces only, non-decreasing timecodes, visible within 3 frames) and "
          "re-read with the real SCCReader (same words, one caption per caption)."),
    ref="§3 C17", technique="Lean 4 proof (decide +kernel over generated tables, omega) + byte-level correspondence + structural oracle + re-read",
